@@ -139,6 +139,10 @@ PamFault == {"Error", "Garbage", "Truncated", "Disconnect"} \cup PamOther
 PamTerm  == {"Success", "Denied", "Unknown"} \cup PamFault
 
 PamSupported == {"sha256", "sha512", "yescrypt"}
+\* expiry classes relative to the login instant: none, future, now (login exactly at the expiry instant), and strictly
+\* after it by 1 s, 12 h, 24 h - 1 s, 10 days. "now" is left to L2 (the shadow date is the first expired day).
+PamExpKinds == {"none", "future", "now", "past_1s", "past_12h", "past_1d", "past"}
+PamExpired == {"past_1s", "past_12h", "past_1d", "past"}
 PamHashKinds == PamSupported \cup {"locked_bang", "locked_star", "locked_hash", "empty", "md5", "nologin_x"}
 
 \* L1 ---------------------------------------------------------------------
@@ -154,7 +158,7 @@ PamFbL1(c, res) ==
   res = "SUCCESS" => /\ c.user /\ c.shadow
                      /\ c.hash \in PamSupported
                      /\ PamFbCred(c) = "right"
-                     /\ c.exp # "past"
+                     /\ c.exp \notin PamExpired
 
 \* L2 ---------------------------------------------------------------------
 \* sm_authenticate_connected (pam_sparkle_common/src/core.rs): one loop iteration per daemon reply.
@@ -183,7 +187,7 @@ PamConn(c) ==
 \* sm_authenticate_fallback
 PamFb(c) ==
   IF ~(c.user /\ c.shadow) THEN (IF c.iuu THEN "IGNORE" ELSE "USER_UNKNOWN")
-  ELSE IF c.exp \in {"now", "past"} THEN "ACCT_EXPIRED"
+  ELSE IF c.exp \in PamExpired \cup {"now"} THEN "ACCT_EXPIRED"
   ELSE IF c.ufp /\ c.authtok = "err" THEN "AUTHTOK_ERR"
   ELSE LET cred == PamFbCred(c)
        IN  IF cred = "none" THEN "CRED_INSUFFICIENT"
@@ -232,5 +236,51 @@ OffOffline(S, m, p) ==
   IF S.cache[m] = OffNone THEN "nocred"
   ELSE IF S.cache[m].pw = p /\ S.cache[m].key = m THEN "accept" ELSE "deny"
 OffSwap(S, m1, m2) == [S EXCEPT !.cache[m2] = S.cache[m1]]
+
+(***************************************************************************)
+(* Section Offline, part 2 (C44): overlapping PAM conversations            *)
+(*                                                                         *)
+(* One machine, one user, two passwords. A PAM conversation is opened by   *)
+(* pam_account_authenticate_init (it becomes an ONLINE or OFFLINE session  *)
+(* depending on the provider state at that moment and carries a snapshot   *)
+(* of the cached user record) and completed later by                       *)
+(* pam_account_authenticate_step with a password. Several conversations    *)
+(* may be open; the provider may go offline / online and the server-side   *)
+(* password may change in between.                                         *)
+(* C = [srv, cache, last, on, conv[c] = [st, mode, snap]]                  *)
+(* Logged lines (lvl "conv"): setup{p}, toggle{on}, pwchange{p},           *)
+(*   cinit{c,on,mode}, cstep{c,p,on,mode,res}, probe{p,res} (a fresh       *)
+(*   offline conversation, init + step back to back, provider forced       *)
+(*   offline for its duration).                                            *)
+(***************************************************************************)
+ConvIds == {"c1", "c2"}
+ConvOther(p) == IF p = "p1" THEN "p2" ELSE "p1"
+ConvNone == [st |-> "none", mode |-> "-", snap |-> "-"]
+ConvInit0(on) == [srv |-> "p1", cache |-> "p1", last |-> "p1", on |-> on, conv |-> [c \in ConvIds |-> ConvNone]]
+
+\* L1 ---------------------------------------------------------------------
+\* last = most recent password accepted by an ONLINE-mode step (observed). A fresh offline login (probe) accepts only
+\* that password; so does an offline-mode conversation completed while the server is unreachable.
+ConvProbeL1(last, p, res) == res = "accept" => p = last
+ConvStepL1(last, r) == (r.mode = "offline" /\ ~r.on /\ r.res = "accept") => r.p = last
+
+\* L2 ---------------------------------------------------------------------
+ConvToggle(C) == [C EXCEPT !.on = ~C.on]
+ConvPwChange(C) == [C EXCEPT !.srv = ConvOther(C.srv)]
+\* pam_account_authenticate_init: cached record with credentials => online session iff the provider is online
+ConvOpen(C, c) == [C EXCEPT !.conv[c] = [st |-> "open", mode |-> IF C.on THEN "online" ELSE "offline", snap |-> C.cache]]
+\* pam_account_authenticate_step
+ConvStepRes(C, c, p) ==
+  IF C.conv[c].mode = "online"
+  THEN (IF ~C.on THEN "error" ELSE IF p = C.srv THEN "accept" ELSE "deny")
+  \* unix_user_offline_auth_step checks the SESSION's snapshot ...
+  ELSE (IF p = C.conv[c].snap THEN "accept" ELSE "deny")
+ConvStep(C, c, p) ==
+  LET res == ConvStepRes(C, c, p)
+      C1 == [C EXCEPT !.conv[c].st = "done"]
+  IN  IF C.conv[c].mode = "online" /\ res = "accept" THEN [C1 EXCEPT !.cache = p, !.last = p]
+      \* ... and on success writes back the CURRENT cached record (re-read under the hsm lock): no change
+      ELSE C1
+ConvProbe(C, p) == IF p = C.cache THEN "accept" ELSE "deny"
 
 =============================================================================
